@@ -77,7 +77,7 @@ func c04Normalise(c *Ctx) {
 						}
 						switch step {
 						case 0:
-							if !c04HasSinkCall(pk, fd.Body, true) {
+							if !c04HasSinkCall(pk, fd.Body, true) && !c04HasHookCall(c, pk, fd.Body) {
 								continue
 							}
 							if n := c19InlineClosuresIn(pk, fd); n != "" {
@@ -137,6 +137,88 @@ func c04Normalise(c *Ctx) {
 	}
 }
 
+// c04HasHookCall: n contains (also inside function literals) a call of os/signal.Notify / Stop, or a static call
+// of a function of the package that reaches one (C04.k follows those calls; a local closure that only names
+// such statements is spliced into its call sites like one that writes to the terminal).
+var c04HookReachCache = map[*types.Info]map[*types.Func]bool{}
+
+func c04HookReach(c *Ctx, pk *packages.Package) map[*types.Func]bool {
+	if m, ok := c04HookReachCache[pk.TypesInfo]; ok {
+		return m
+	}
+	info := pk.TypesInfo
+	reach := map[*types.Func]bool{}
+	calls := map[*types.Func][]*types.Func{}
+	for _, f := range pk.Syntax {
+		for _, d := range f.Decls {
+			fd, ok := d.(*ast.FuncDecl)
+			if !ok || fd.Body == nil {
+				continue
+			}
+			self, _ := info.Defs[fd.Name].(*types.Func)
+			if self == nil {
+				continue
+			}
+			ast.Inspect(fd.Body, func(m ast.Node) bool {
+				if call, ok := m.(*ast.CallExpr); ok {
+					if fn := calleeOf(info, call); fn != nil {
+						switch fullName(fn) {
+						case "os/signal.Notify", "os/signal.Stop":
+							reach[self] = true
+						default:
+							if fn.Pkg() == pk.Types {
+								calls[self] = append(calls[self], fn)
+							}
+						}
+					}
+				}
+				return true
+			})
+		}
+	}
+	for changed := true; changed; {
+		changed = false
+		for f, cs := range calls {
+			if reach[f] {
+				continue
+			}
+			for _, g := range cs {
+				if reach[g] {
+					reach[f] = true
+					changed = true
+					break
+				}
+			}
+		}
+	}
+	c04HookReachCache = map[*types.Info]map[*types.Func]bool{info: reach}
+	return reach
+}
+
+func c04HasHookCall(c *Ctx, pk *packages.Package, n ast.Node) bool {
+	reach := c04HookReach(c, pk)
+	found := false
+	ast.Inspect(n, func(m ast.Node) bool {
+		if found {
+			return false
+		}
+		if call, ok := m.(*ast.CallExpr); ok {
+			if fn := calleeOf(pk.TypesInfo, call); fn != nil {
+				switch fullName(fn) {
+				case "os/signal.Notify", "os/signal.Stop":
+					found = true
+				default:
+					if reach[fn] {
+						found = true
+					}
+				}
+			}
+		}
+		return !found
+	})
+	return found
+}
+
 // c04HasSinkCall: n contains a write to the host terminal (withLits: also inside function literals).
 func c04HasSinkCall(pk *packages.Package, n ast.Node, withLits bool) bool {
 	found := false
@@ -171,8 +253,26 @@ func c04Pure(p *Program, info *types.Info, e ast.Expr, depth int) bool {
 			return false
 		}
 		switch t := n.(type) {
-		case *ast.FuncLit, *ast.TypeAssertExpr, *ast.SliceExpr, *ast.IndexExpr, *ast.StarExpr, *ast.CompositeLit:
-			// (index/slice/deref can panic; composite literals allocate: keep to what templates are made of)
+		case *ast.CompositeLit:
+			// a literal list (`[]os.Signal{syscall.SIGWINCH}`) has no effect but the allocation; its elements are
+			// visited. Other literals (structs, maps, pointers to them) are kept out: they carry identity.
+			switch tt := info.TypeOf(t); u := tt.(type) {
+			case nil:
+				pure = false
+			default:
+				switch u.Underlying().(type) {
+				case *types.Slice, *types.Array:
+					for _, el := range t.Elts {
+						if _, kv := el.(*ast.KeyValueExpr); kv {
+							pure = false
+						}
+					}
+				default:
+					pure = false
+				}
+			}
+		case *ast.FuncLit, *ast.TypeAssertExpr, *ast.SliceExpr, *ast.IndexExpr, *ast.StarExpr:
+			// (index/slice/deref can panic: keep to what templates are made of)
 			pure = false
 		case *ast.UnaryExpr:
 			if t.Op == token.ARROW || t.Op == token.AND {
@@ -533,7 +633,7 @@ func c04UnrollOne(c *Ctx, pk *packages.Package, info *types.Info, fd *ast.FuncDe
 	if rs.Tok != token.DEFINE && (rs.Key != nil || rs.Value != nil) {
 		return ""
 	}
-	if !c04HasSinkCall(pk, rs.Body, false) {
+	if !c04HasSinkCall(pk, rs.Body, false) && !c04HasHookCall(c, pk, rs.Body) {
 		return ""
 	}
 	var keyObj, valObj types.Object
@@ -1474,7 +1574,7 @@ func c04IndexLoopToRange(c *Ctx, pk *packages.Package, fd *ast.FuncDecl) string 
 		if !ok || !c04TableIdent(c, info, fd, tid) {
 			return true
 		}
-		if !c04HasSinkCall(pk, fs.Body, false) || !c04LoopVarUntouched(info, fs.Body, obj) {
+		if !c04HasSinkCall(pk, fs.Body, false) && !c04HasHookCall(c, pk, fs.Body) || !c04LoopVarUntouched(info, fs.Body, obj) {
 			return true
 		}
 		cur.Replace(&ast.RangeStmt{Key: ast.NewIdent(iv.Name), Tok: token.DEFINE, X: ast.NewIdent(tid.Name), Body: fs.Body})
@@ -1508,7 +1608,7 @@ func c04IndexUsesToValue(c *Ctx, pk *packages.Package, fd *ast.FuncDecl) string 
 			return true
 		}
 		tid, ok := unparen(rs.X).(*ast.Ident)
-		if !ok || !c04TableIdent(c, info, fd, tid) || !c04HasSinkCall(pk, rs.Body, false) {
+		if !ok || !c04TableIdent(c, info, fd, tid) || !c04HasSinkCall(pk, rs.Body, false) && !c04HasHookCall(c, pk, rs.Body) {
 			return true
 		}
 		kobj, tobj := info.Defs[kid], info.ObjectOf(tid)
